@@ -8,15 +8,15 @@ import DEngine.Model.MiniKv
         expire_at = now + ttl), unregister}` (`key_to_expiry`; `has_keys` has no observable effect: an empty
         table already yields "nothing expired").
   * `expiredKeys`, `mayHaveExpired`, `cleanup` — lease.rs `get_expired_keys` (`expire_at <= now`, removed from
-        the table), `may_have_expired_keys` (samples the first 10 entries of the DashMap iteration: exact when
-        the table has ≤ 10 entries; above that the iteration order is unknown — the model samples the first
-        10 in list order and marks the run `sample-gt10`), `lease_background_cleanup` of both engines
+        the table), `may_have_expired_keys` (since fix F47: scans until the first due entry, i.e.
+        "some entry is due"; before, it sampled the first 10 entries of the DashMap iteration),
+        `lease_background_cleanup` of both engines
         (fast paths; delete expired keys from the data; File engine then `persist_data_async`).
   * `reload`                            — lease.rs `TtlLease::reload` / `from_snapshot`: table := entries of
         the snapshot with `expire_at > now` (expired entries are dropped; the data is not touched).
   * `step (.put/.del/.cas)`             — `apply_chunk` of file_state_machine.rs and rocksdb_state_machine.rs:
-        Insert{ttl: Some t} registers (and PANICS inside apply_chunk when `now + t` overflows the i64
-        seconds of `SystemTime` — `Obs.panic`), Insert{ttl: None} unregisters, Delete unregisters, successful CAS
+        Insert{ttl: Some t} registers with `t` clamped to `MAX_TTL_SECS` (1000 years; fix F40 — before,
+        `now + t` overflowing `SystemTime` panicked inside apply_chunk), Insert{ttl: None} unregisters, Delete unregisters, successful CAS
         unregisters, failed CAS leaves the lease alone; File engine appends a WAL record first
         (`encode_wal_entry`: Insert carries `expire_at` in seconds or 0, successful CAS is written as
         Insert with 0, failed CAS as CasFailed).
@@ -37,10 +37,9 @@ import DEngine.Model.MiniKv
         then reopen as above.
   * `step .snap / .install`             — `generate_snapshot_data` (data + `lease.to_snapshot()`), and
         `apply_snapshot_from_file` on the same engine.  RocksDB: data := snapshot, `lease.reload(ttl_state.bin)`,
-        `persist_ttl_metadata`.  File: data := snapshot, persisted, WAL cleared — and the lease section is
-        NOT reloaded: the record loop `while pos < buffer.len()` consumes the trailing
-        `[ttl_len][ttl bytes]` section as if it were a key (its length check `pos + key_len > len` is not
-        strict), so `pos == len` afterwards and the `if pos + 8 <= buffer.len()` reload branch is dead.
+        `persist_ttl_metadata`.  File: data := snapshot, persisted, WAL cleared, `lease.reload` of the
+        snapshot's lease section (since fix F45: an incomplete record rewinds to its start; before, the
+        record loop swallowed the lease section and the reload branch was dead); ttl_state.bin not written.
 -/
 namespace DEngine.Ttl
 open DEngine.MiniKv
@@ -100,8 +99,11 @@ inductive Obs where
   | panic
 deriving DecidableEq, Repr, Inhabited
 
-/-- `SystemTime` seconds are an `i64`: `now + ttl` must stay below 2^63. -/
-def overflowAt : Nat := 9223372036854775808
+/-- `MAX_TTL_SECS`: client TTLs are clamped to 1000 years (lease.rs). -/
+def maxTtl : Nat := 31536000000
+
+/-- effective TTL. -/
+def clampTtl (t : Nat) : Nat := min t maxTtl
 
 /-! ## TtlLease -/
 
@@ -114,8 +116,8 @@ def expiredKeys (lease : AMap) (now : Nat) : List Nat :=
 /-- table after `get_expired_keys(now)` removed them (`remove_if(key, v <= now)`). -/
 def dropExpired (lease : AMap) (now : Nat) : AMap := eraseAll lease (expiredKeys lease now)
 
-/-- `may_have_expired_keys(now)`: first 10 entries of the iteration. -/
-def mayHaveExpired (lease : AMap) (now : Nat) : Bool := (lease.take 10).any (isExpired now)
+/-- `may_have_expired_keys(now)`: some entry is due. -/
+def mayHaveExpired (lease : AMap) (now : Nat) : Bool := lease.any (isExpired now)
 
 /-- `reload(snapshot)` at `now`: keep `expire_at > now`. -/
 def reload (snapshot : AMap) (now : Nat) : AMap := dropExpired snapshot now
@@ -154,12 +156,8 @@ def step (s : St) : Op → St × Obs
   | .put k v none =>
     ({ s with data := set s.data k v, lease := erase s.lease k, wal := walAppend s (.ins k v 0) }, .none)
   | .put k v (some t) =>
-    -- `SystemTime::now() + Duration::from_secs(ttl)` panics on overflow (i64 seconds) — in
-    -- `encode_wal_entry` (File) / `TtlLease::register` (RocksDB), i.e. inside `apply_chunk`
-    if overflowAt ≤ s.now + t then (s, .panic)
-    else
-      ({ s with data := set s.data k v, lease := set s.lease k (s.now + t)
-                wal := walAppend s (.ins k v (s.now + t)) }, .none)
+    ({ s with data := set s.data k v, lease := set s.lease k (s.now + clampTtl t)
+              wal := walAppend s (.ins k v (s.now + clampTtl t)) }, .none)
   | .del k =>
     ({ s with data := erase s.data k, lease := erase s.lease k, wal := walAppend s (.del k) }, .none)
   | .cas k e v =>
@@ -197,7 +195,7 @@ def step (s : St) : Op → St × Obs
     | none => (s, .nosnap)
     | some (d, l) =>
       match s.eng with
-      | .file => ({ s with data := d, dData := d, wal := [] }, .none)
+      | .file => ({ s with data := d, dData := d, wal := [], lease := reload l s.now }, .none)
       | .rocks =>
         let l' := reload l s.now
         ({ s with data := d, lease := l', dTtl := some l' }, .none)
@@ -236,7 +234,6 @@ def tagsOf (s : St) : Op → List String
     else [if (get s.lease k).isSome then "cas-fail-keeps-ttl" else "cas-fail"]
   | .adv _ => []
   | .cleanup =>
-    (if s.lease.length > 10 then ["sample-gt10"] else []) ++
     [if s.lease.isEmpty then "cleanup-no-lease"
      else if mayHaveExpired s.lease s.now then "cleanup-removed" else "cleanup-none-due"]
   | .get k =>
@@ -312,7 +309,7 @@ def gstep (g : Ghost) (op : Op) (o : Obs) : Option String × Ghost :=
   match op, o with
   | .put k v ttl, _ =>
     (none, { g with val := set g.val k v, gone := g.gone.filter (· != k)
-                    dl := (match ttl with | some t => set g.dl k (g.now + t) | none => erase g.dl k) })
+                    dl := (match ttl with | some t => set g.dl k (g.now + clampTtl t) | none => erase g.dl k) })
   | .del k, _ => (none, { (g.forget k) with gone := g.gone.filter (· != k) })
   | .cas k e v, .cas ok =>
     let cur := get g.val k
